@@ -56,6 +56,7 @@ type Conn struct {
 	rdl      time.Time
 	timer    *time.Timer
 	closed   bool
+	honour   bool // honour read deadlines (off by default, see SetReadDeadline)
 	closeCh  chan struct{}
 	onceClos sync.Once
 }
@@ -71,6 +72,9 @@ func Pair() (*Conn, *Conn) {
 // EOFWithData makes the Read that takes the last byte of a stream whose writer has closed return (n, io.EOF) in one call
 // (plain TCP returns the EOF on the next call; crypto/tls hands out data and the close_notify together).
 func (c *Conn) EOFWithData() { c.rd.mu.Lock(); c.rd.eofWithData = true; c.rd.mu.Unlock() }
+
+// HonourDeadlines makes this end apply read deadlines as a socket does.
+func (c *Conn) HonourDeadlines() { c.dmu.Lock(); c.honour = true; c.dmu.Unlock() }
 
 // FailWrites makes every later Write on this end fail with err (nil restores normal service) while reads go on as before -
 // what a socket does whose write deadline keeps expiring because the peer has stopped reading.
@@ -271,8 +275,15 @@ func (c *Conn) LocalAddr() net.Addr  { return addr("fake-" + c.name) }
 func (c *Conn) RemoteAddr() net.Addr { return addr("fake-peer-of-" + c.name) }
 
 func (c *Conn) SetDeadline(t time.Time) error { return c.SetReadDeadline(t) }
+// SetReadDeadline is accepted and, unless HonourDeadlines was called, ignored: the broker drops connections that stay silent
+// for 120 s of wall-clock time, the scripted clients stand for clients that keep their connection alive, and a run that takes
+// longer on a loaded machine must not turn into "lost messages" (seen with large audiences under -race at load average 100).
 func (c *Conn) SetReadDeadline(t time.Time) error {
 	c.dmu.Lock()
+	if !c.honour {
+		c.dmu.Unlock()
+		return nil
+	}
 	c.rdl = t
 	if c.timer != nil {
 		c.timer.Stop()
